@@ -167,6 +167,7 @@ impl Prop for C08 {
             v.push(format!("adjusted:{}:moved", m));
         }
         v.push("calendar:inside-CalType-container".to_string());
+        v.push("python-layer:add_months".to_string());
         v
     }
     fn min_evaluations(&self, tier: Tier) -> u64 {
@@ -356,6 +357,14 @@ impl Prop for C08 {
                         let got = guarded(|| c.add_months(&dt, o as i32, &m, r, settlement));
                         ctx.eval(1);
                         ctx.asserted(1);
+                        if let (Some(py), Caught::Ok(g)) = (c.py_add_months(dt, o as i32, m, *r, settlement), &got) {
+                            ctx.asserted(1);
+                            ctx.class("python-layer:add_months");
+                            if py != Ok(*g) {
+                                ctx.violation("C08|python-layer|add_months", json!({"calendar": spec.describe(), "start": fmt_z(z), "months": o, "roll": roll_name(r), "modifier": mod_name(&m), "settlement": settlement, "core": g.to_string(), "python_layer": py.map(|d| d.to_string())}));
+                                return;
+                            }
+                        }
                         match got {
                             Caught::Ok(g) => {
                                 ctx.class(&format!("adjusted:{}:{}", mod_name(&m), if want != un { "moved" } else { "unmoved" }));
